@@ -57,7 +57,7 @@ def _brink_strategy(tier, name):
         lam = sorted(set(draw(st.lists(gen.log_uniform(1e-6, 1e6), min_size=2, max_size=5))))
         return {
             "kernel": name,
-            "shape": draw(gen.grid_shape(dim, 2, 9 if dim == 2 else 5)),
+            "shape": draw(gen.grid_shape(dim, 2, 9 if dim == 2 else 5, long_axis=70 if dim == 2 else 40)),
             "dtype": draw(gen.precisions),
             "threads": draw(st.sampled_from([False, 2])),
             "field": draw(gen.vector_field_spec(3, max_mag_exp=8)),
@@ -330,7 +330,7 @@ def _filt_strategy(tier, var):
     def case(draw):
         lo = 2 * (o + 1) + 1
         return {"order": o, "type": t, "field_type": ft, "dtype": draw(gen.precisions),
-                "shape": draw(gen.grid_shape(3, lo, lo + (4 if tier == "thorough" else 2))),
+                "shape": draw(gen.grid_shape(3, lo, lo + (4 if tier == "thorough" else 2), long_axis=40)),
                 "mode": draw(st.sampled_from(["constant", "checker", "wave", "wave", "wave"])),
                 "k": draw(st.lists(gen.floats(-3.1, 3.1, 32), min_size=3, max_size=3)),
                 "phase": draw(gen.floats(0.0, 6.28, 32)),
